@@ -55,6 +55,15 @@ impl C06 {
                 .with("stage", stage)
                 .with("what", what)
         };
+        // scaling families go through the command line tool first: it runs under a CPU-time
+        // limit, so super-polynomial work is reported instead of stalling this process
+        let cli_first = case.mode.starts_with("family") && !case.cli_mode.is_empty();
+        if cli_first {
+            let out = Self::cli_part(case, ctx, size, &mk);
+            if !out.is_empty() {
+                return out;
+            }
+        }
         // (1) the library entry point
         adapter::hooks_set_sweep_limit(Some(50_000));
         let res = adapter::run_entry(&case.files, &[]);
@@ -109,8 +118,17 @@ impl C06 {
             }
         }
         // (3) the command line tool
-        if !case.cli_mode.is_empty() && out.is_empty() {
+        if !case.cli_mode.is_empty() && out.is_empty() && !cli_first {
+            out = Self::cli_part(case, ctx, size, &mk);
+        }
+        out
+    }
+
+    fn cli_part(case: &Case, ctx: &mut Ctx, size: usize, mk: &dyn Fn(&str, &str, String) -> Violation) -> Vec<Violation> {
+        let mut out = vec![];
+        {
             let dir = cli::scratch("c06", crate::runner::next_serial());
+            let _ = std::fs::create_dir_all(dir.join("sub"));
             for (n, t) in &case.files {
                 let _ = std::fs::write(dir.join(n), t);
             }
@@ -158,7 +176,8 @@ impl Prop for C06 {
 
     fn gen(ch: &mut Choices, tier: Tier) -> Option<Case> {
         let h = text::hostile(ch, tier == Tier::Thorough);
-        let cli_mode = if ch.chance(1, 25) { ch.pick_str(&CLI_MODES).to_string() } else { String::new() };
+        let p = if h.mode == "include-graph" { 5 } else { 25 };
+        let cli_mode = if ch.chance(1, p) { ch.pick_str(&CLI_MODES).to_string() } else { String::new() };
         Some(Case {
             files: h.files,
             mode: h.mode,
@@ -180,28 +199,117 @@ impl Prop for C06 {
         let sizes: &[usize] = if tier == Tier::Thorough { &[1, 10, 100, 1000, 10_000, 100_000] } else { &[1, 10, 100, 1000, 20_000] };
         let mut n = 0;
         let mut fails = vec![];
-        for kind in 0..text::N_FAMILIES {
+        let mut run = |case: Case, ctx: &mut Ctx, fails: &mut Vec<(Case, Vec<Violation>)>| {
+            let mut c = Ctx::default();
+            let vs = C06::check_case(&case, &mut c);
+            for (k, v) in c.facts {
+                ctx.fact(&k, v);
+            }
+            for (k, v) in c.maxima {
+                ctx.max(&k, v);
+            }
+            for (k, v) in c.skips {
+                *ctx.skips.entry(k).or_insert(0) += v;
+            }
+            if !vs.is_empty() {
+                fails.push((case, vs));
+            }
+        };
+        for kind in 0..16 {
             for (si, size) in sizes.iter().enumerate() {
                 // analysis-heavy families stay small: their cost is the subject of the work bound, not of a stress test
                 let size = if (6..=9).contains(&kind) { (*size).min(if tier == Tier::Thorough { 2000 } else { 400 }) } else { *size };
-                let case = Case {
-                    files: vec![("main.s".into(), text::family(kind, size))],
-                    mode: format!("family:{kind}:{size}"),
-                    cli_mode: if si == 2 { CLI_MODES[kind % CLI_MODES.len()].to_string() } else { String::new() },
-                    release: kind % 2 == 0,
-                };
                 n += 1;
-                let mut c = Ctx::default();
-                let vs = C06::check_case(&case, &mut c);
-                for (k, v) in c.facts {
-                    ctx.fact(&k, v);
+                run(
+                    Case {
+                        files: vec![("main.s".into(), text::family(kind, size))],
+                        mode: format!("family:{kind}:{size}"),
+                        cli_mode: if si == 2 { CLI_MODES[kind % CLI_MODES.len()].to_string() } else { String::new() },
+                        release: kind % 2 == 0,
+                    },
+                    ctx,
+                    &mut fails,
+                );
+            }
+        }
+        // searches of the lints over many equal-length branches: through the CLI, under the CPU-time limit
+        for size in [4usize, 12, 20, 26, 32] {
+            n += 1;
+            run(
+                Case {
+                    files: vec![("main.s".into(), text::family(16, size))],
+                    mode: format!("family:16:{size}"),
+                    cli_mode: "compact".into(),
+                    release: true,
+                },
+                ctx,
+                &mut fails,
+            );
+        }
+        // extreme immediates around the stack pointer: the whole grid
+        for k in 0..(12 * 12 * 12) {
+            n += 1;
+            run(
+                Case {
+                    files: vec![("main.s".into(), text::family(17, k))],
+                    mode: format!("family:17:{k}"),
+                    cli_mode: String::new(),
+                    release: false,
+                },
+                ctx,
+                &mut fails,
+            );
+        }
+        // Unicode white space x position, through the pretty printer (and the other modes)
+        for k in 0..(7 * 8) {
+            for mode in ["pretty", "compact", "json"] {
+                n += 1;
+                run(
+                    Case {
+                        files: vec![("main.s".into(), text::family(18, k))],
+                        mode: format!("family:18:{k}"),
+                        cli_mode: mode.into(),
+                        release: k % 2 == 0,
+                    },
+                    ctx,
+                    &mut fails,
+                );
+            }
+        }
+        // include graphs on disk: self-inclusion and cycles under every spelling of the path
+        for (k, (a_inc, b_inc)) in [
+            ("main.s", ""),
+            ("./main.s", ""),
+            ("sub/../main.s", ""),
+            ("b.s", "main.s"),
+            ("./b.s", "./main.s"),
+            ("./b.s", "sub/../b.s"),
+            ("sub/../b.s", "./main.s"),
+            ("b.s", "./b.s"),
+            ("missing.s", ""),
+            ("./sub", ""),
+        ]
+        .iter()
+        .enumerate()
+        {
+            for mode in ["compact", "pretty", "json"] {
+                n += 1;
+                let mut files = vec![("main.s".to_string(), format!("main:\n    li a0, 1\n.include \"{a_inc}\"\n    li a7, 10\n    ecall\n"))];
+                if !b_inc.is_empty() {
+                    files.push(("b.s".to_string(), format!("helper:\n    li t0, 2\n.include \"{b_inc}\"\n")));
+                } else if *a_inc == "b.s" {
+                    files.push(("b.s".to_string(), "helper:\n    li t0, 2\n".to_string()));
                 }
-                for (k, v) in c.maxima {
-                    ctx.max(&k, v);
-                }
-                if !vs.is_empty() {
-                    fails.push((case, vs));
-                }
+                run(
+                    Case {
+                        files,
+                        mode: format!("include-graph:fixed:{k}"),
+                        cli_mode: mode.into(),
+                        release: k % 2 == 0,
+                    },
+                    ctx,
+                    &mut fails,
+                );
             }
         }
         ctx.fact("structural_family_cases", n);
